@@ -2117,8 +2117,15 @@ class BaseEnum(TraitType):
         """ Validates that the value is one of the enumerated set of valid
         values.
         """
-        if value in self.values:
-            return value
+        try:
+            if value in self.values:
+                return value
+        except Exception:
+            # A containment check that fails (for example for an array, whose
+            # comparison result has no truth value) means that the value is
+            # not one of the enumerated values. This is also what the C-level
+            # validator does. See enthought/traits#376.
+            pass
 
         self.error(object, name, value)
 
